@@ -6,7 +6,7 @@ From Coq Require Import Floats Reals List Lia Lra.
 From ADV Require Import Base.Num C05.Model C05.Spec C05.ProofsBase C05.ProofsChol C05.ProofsLdl
                         C05.ProofsHouse C05.ProofsGivens C05.Refuted
                         C05.ProofsHouse2 C05.ProofsBlock C05.ProofsTrace C05.ProofsHess C05.ProofsGS
-                        C05.ProofsLdl2 C05.ProofsChol2 C05.ProofsTridiag C05.ProofsBidiag.
+                        C05.ProofsLdl2 C05.ProofsChol2 C05.ProofsTridiag C05.ProofsBidiag C05.ProofsTridiag2 C05.ProofsOpts C05.ProofsBand.
 Import ListNotations.
 Open Scope R_scope.
 
@@ -191,6 +191,61 @@ Theorem givens_apply_orthogonal :
   snd (giv_apply XR c s a1 a2) * snd (giv_apply XR c s b1 b2) = a1 * b1 + a2 * b2.
 Proof. exact giv_apply_inner. Qed.
 
+(* 5b. The banded shortcuts ApplyHessenbergLeft/Right, ApplyBidiagLeft/Right and
+      ApplyTridiagLeft/Right rotate only the index set coded in givensRotation.go (hess_*_sel in
+      Model.v, bidiag_*_sel / tridiag_*_sel in Corr.v, all tied bit-exactly).  GIVEN the band
+      hypothesis every skipped position holds the pair (0, 0), so the shortcut equals the full
+      rotation ApplyLeft / ApplyRight — every size, every c, s, i, k. *)
+Theorem givens_banded_rows_equal_full :
+  forall r cN (M : rmat) (sel : nat -> bool) (c s : R) (i k : nat),
+  dims r cN M -> (i < r)%nat -> (k < r)%nat ->
+  (forall j, (j < cN)%nat -> sel j = false -> G M i j = 0 /\ G M k j = 0) ->
+  giv_rows XR sel M c s i k = givens_left XR M c s i k.
+Proof. exact giv_rows_band. Qed.
+
+Theorem givens_banded_cols_equal_full :
+  forall r cN (M : rmat) (sel : nat -> bool) (c s : R) (i k : nat),
+  dims r cN M ->
+  (forall j, (j < r)%nat -> sel j = false -> G M j i = 0 /\ G M j k = 0) ->
+  giv_cols XR sel M c s i k = givens_right XR M c s i k.
+Proof. exact giv_cols_band. Qed.
+
+Theorem givens_hessenberg_left_shortcut :
+  forall n (H : rmat) (c s : R) (i k : nat),
+  dims n n H -> upper_hessenberg H -> (i < n)%nat -> (k < n)%nat ->
+  givens_hess_left XR H c s i k = givens_left XR H c s i k.
+Proof. exact givens_hess_left_is_full. Qed.
+
+Theorem givens_hessenberg_right_shortcut :
+  forall n (H : rmat) (c s : R) (i k : nat),
+  dims n n H -> upper_hessenberg H ->
+  givens_hess_right XR H c s i k = givens_right XR H c s i k.
+Proof. exact givens_hess_right_is_full. Qed.
+
+Theorem givens_bidiag_left_shortcut :
+  forall m n (B : rmat) (c s : R) (i k : nat),
+  dims m n B -> upper_bidiagonal B -> (i < m)%nat -> (k < m)%nat ->
+  giv_rows XR (C05.Corr.bidiag_left_sel (ncols B) i k) B c s i k = givens_left XR B c s i k.
+Proof. exact givens_bidiag_left_is_full. Qed.
+
+Theorem givens_bidiag_right_shortcut :
+  forall m n (B : rmat) (c s : R) (i k : nat),
+  dims m n B -> upper_bidiagonal B ->
+  giv_cols XR (C05.Corr.bidiag_right_sel i k) B c s i k = givens_right XR B c s i k.
+Proof. exact givens_bidiag_right_is_full. Qed.
+
+Theorem givens_tridiag_left_shortcut :
+  forall n (T : rmat) (c s : R) (i k : nat),
+  dims n n T -> tridiagonal T -> (i < n)%nat -> (k < n)%nat ->
+  giv_rows XR (C05.Corr.tridiag_left_sel i k) T c s i k = givens_left XR T c s i k.
+Proof. exact givens_tridiag_left_is_full. Qed.
+
+Theorem givens_tridiag_right_shortcut :
+  forall n (T : rmat) (c s : R) (i k : nat),
+  dims n n T -> tridiagonal T ->
+  giv_cols XR (C05.Corr.tridiag_right_sel i k) T c s i k = givens_right XR T c s i k.
+Proof. exact givens_tridiag_right_is_full. Qed.
+
 (* 6. Gram-Schmidt at /repo HEAD (gram_schmidt_in2), every n x m input with m <= n and
       every recycled buffer R0: R is upper triangular, Q R = A (UNCONDITIONALLY: a zero
       column norm forces a zero column, so no rank condition is needed), the result does
@@ -257,21 +312,73 @@ Theorem bidiagonalization_correct :
     (forall i j, (i + 1 < j)%nat -> G B i j = 0).
 Proof. exact bidiag_sound_sums. Qed.
 
-(* 7b. Tridiagonalisation at HEAD.  Proved: the guard `beta != 0` introduced by the fix
-      0e89154 (overwrite A(k+1,k), A(k,k+1) by the column norm only then) is true exactly
-      when the column has a non-zero entry below the subdiagonal, i.e. exactly when a
-      reflection is applied (positive, universal form of the retired finding
-      F-TRIDIAG-SIGN; the concrete witness is tridiagonalization_sign_regression below).
-      MISSING (hence _partial): U T U^T = A with T tridiagonal and U orthogonal for the whole
-      loop; it needs the symmetric rank-2 update identity P A P = A - nu w^T - w nu^T
-      (p = beta A nu, w = p - (beta p^T nu / 2) nu) under the invariant "A symmetric",
-      then the same induction as hessenberg_correct with house_reflects for the
-      overwritten entries. *)
-Theorem tridiagonalization_reflects_iff_column_not_reduced_partial :
+(* 7b. Householder tridiagonalisation at HEAD (model tridiag2), every n and EVERY symmetric A,
+      ComputeU requested: U^T U = I, U T U^T = A, T is symmetric and tridiagonal.  Induction over
+      the elimination index as for hessenberg_correct; the step is T <- P T P, U <- U P because
+      (i) the symmetric rank-2 update the code applies to the trailing block,
+          A22 - nu w^T - w nu^T with p = beta A22 nu, w = p - (beta p^T nu / 2) nu,
+          IS P A22 P for symmetric A22 (symmetric_rank2_update_is_PAP, every size), and
+      (ii) the entries (k+1,k), (k,k+1) overwritten by the column norm and the entries set to
+          zero are the entries of P x (householder_reflects); the overwrite is guarded by
+          `beta != 0`, which is true exactly when the column is not yet reduced
+          (tridiagonalization_reflects_iff_column_not_reduced: positive, universal form of the
+          retired finding F-TRIDIAG-SIGN; concrete witness: tridiagonalization_sign_regression).
+      The middle factor does not depend on the ComputeU option. *)
+Theorem tridiagonalization_correct :
+  forall (A : rmat) (n : nat),
+  dims n n A -> symmetric n A ->
+  exists T U, tridiag2 XR true A = (T, Some U) /\
+    dims n n T /\ dims n n U /\
+    (forall i j, (i < n)%nat -> (j < n)%nat -> sum_n (fun k => G U k i * G U k j) n = delta i j) /\
+    (forall i j, (i < n)%nat -> (j < n)%nat ->
+       sum_n (fun a => G U i a * sum_n (fun b => G T a b * G U j b) n) n = G A i j) /\
+    symmetric n T /\
+    (forall i j, (j + 1 < i)%nat -> G T i j = 0) /\
+    (forall i j, (i + 1 < j)%nat -> G T i j = 0).
+Proof. exact tridiag2_sound. Qed.
+
+Theorem tridiagonalization_T_independent_of_computeU :
+  forall A : rmat, fst (tridiag2 XR false A) = fst (tridiag2 XR true A).
+Proof. exact tridiag2_T_independent_of_computeU. Qed.
+
+(* the rank-2 update as coded (p = (A nu) beta ; t = (p . nu) beta / 2 ; w = p - nu t), for every
+   size d, every symmetric A (a function on indices), every beta and nu: entry (i, j) of
+   A - nu w^T - w nu^T is entry (i, j) of (I - beta nu nu^T) A (I - beta nu nu^T) *)
+Theorem symmetric_rank2_update_is_PAP :
+  forall (d : nat) (A : fmatR) (beta : R) (nu : list R),
+  (forall a b, (a < d)%nat -> (b < d)%nat -> A a b = A b a) ->
+  forall (p w : nat -> R) (t : R) (i j : nat),
+  (forall a, (a < d)%nat -> p a = sum_n (fun b => A a b * V nu b) d * beta) ->
+  t = sum_n (fun a => p a * V nu a) d * beta / (1 + 1) ->
+  (forall a, (a < d)%nat -> w a = p a - V nu a * t) ->
+  (i < d)%nat -> (j < d)%nat ->
+  A i j - V nu i * w j - V nu j * w i =
+  sum_n (fun b => sum_n (fun a => refl beta nu i a * A a b) d * refl beta nu b j) d.
+Proof. exact rank2_update_identity. Qed.
+
+Theorem tridiagonalization_reflects_iff_column_not_reduced :
   forall (x0 : R) (xt : list R),
   negb (eqb (nx XR) (fst (house XR (x0 :: xt))) (zero (nx XR))) = true <->
   exists k, (k < length xt)%nat /\ nth k xt 0 <> 0.
 Proof. exact tridiag2_reflects_iff. Qed.
+
+(* 7c. Option combinations (quantifier: "all option combinations (compute U / V ...)"): in the
+      model the factors do not depend on WHICH accumulators are requested — B is the same for all
+      four combinations of ComputeU / ComputeV, U (resp. V) is the same whether or not the other
+      one is requested; likewise H of the Hessenberg reduction (and T above).  Together with
+      bidiagonalization_correct / hessenberg_correct this gives the contract of every option
+      combination; the Go code, which shares one work vector Nu between the accumulations, is held
+      to it by the bit-exact replay of all combinations (seeded regression C05-3). *)
+Theorem bidiagonalization_options_independent :
+  forall (cu cv : bool) (A : rmat),
+  fst (fst (bidiag2 XR cu cv A)) = fst (fst (bidiag2 XR true true A)) /\
+  snd (fst (bidiag2 XR true cv A)) = snd (fst (bidiag2 XR true true A)) /\
+  snd (bidiag2 XR cu true A) = snd (bidiag2 XR true true A).
+Proof. exact bidiag2_options_independent. Qed.
+
+Theorem hessenberg_H_independent_of_computeU :
+  forall (sz : bool) (A : rmat), fst (hessenberg XR sz false A) = fst (hessenberg XR sz true A).
+Proof. exact C05.ProofsOpts.hessenberg_H_independent_of_computeU. Qed.
 
 (* 8. Trace machine for the ITERATIVE routines (QR algorithm, SVD; they are data dependent
       and have no closed model).  Matrices as functions nat -> nat -> R, [meq r c] = equality
@@ -354,6 +461,18 @@ Proof.
   split.
   - split; [reflexivity|]. intros row [<-|[<-|[]]]; reflexivity.
   - intros i j Hi Hj. destruct i as [|[|i]]; destruct j as [|[|j]]; try lia; reflexivity.
+Qed.
+
+(* a symmetric, not yet tridiagonal instance for tridiagonalization_correct (a reflection is
+   applied in step 0: the entry (2,0) is not zero) *)
+Example tridiagonalization_hyps_satisfiable :
+  dims 3 3 [[4; 1; 2]; [1; 3; 5]; [2; 5; 6]] /\ symmetric 3 [[4; 1; 2]; [1; 3; 5]; [2; 5; 6]] /\
+  G [[4; 1; 2]; [1; 3; 5]; [2; 5; 6]] 2 0 <> 0.
+Proof.
+  split; [|split].
+  - split; [reflexivity|]. intros row [<-|[<-|[<-|[]]]]; reflexivity.
+  - intros i j Hi Hj. destruct i as [|[|[|i]]]; destruct j as [|[|[|j]]]; try lia; reflexivity.
+  - unfold G. cbn. lra.
 Qed.
 
 (* regression witnesses of retired findings (fixed in /repo): the HEAD model
